@@ -26,7 +26,7 @@ CONSTANTS NFns,        \* declarations per library
           Shapes,      \* subset of {"plain","keyword","dollar","asm","asmu","renamed"}
           ArgSet,      \* "all" | "reps" | "value"
           RetSet,      \* "int" | "all" | "reps"
-          OptSet,      \* "none" | "all"
+          OptSet,      \* "none" | "all" | "plink" (--prefix-link-name only)
           FixedToks,   \* TRUE: token of an argument is a function of its position
           Pad          \* TRUE: a prefix of 0..6 longs and 0 or 8 doubles exhausts the registers first
 
@@ -41,9 +41,9 @@ RetPool == CASE RetSet = "int" -> {Sc("int")} [] RetSet = "reps" -> (Reps \cap R
              [] OTHER -> RetTypes
 
 Bools(on) == IF on THEN BOOLEAN ELSE {FALSE}
-Opts == IF OptSet = "none"
+Opts == IF OptSet \in {"none", "plink"}
           THEN {[merge |-> FALSE, sort |-> FALSE, cnaming |-> FALSE, inl |-> FALSE, rename |-> FALSE,
-                 plink |-> FALSE, abiov |-> "none"]}
+                 plink |-> OptSet = "plink", abiov |-> "none"]}
           ELSE [merge : BOOLEAN, sort : BOOLEAN, cnaming : BOOLEAN, inl : BOOLEAN, rename : BOOLEAN,
                 plink : BOOLEAN, abiov : {"none", "C-unwind", "system"}]
 
